@@ -20,6 +20,10 @@ def structEffs : RState → List Nat
   | .rows e _ _ _ _ _ _ => [e]
   | .rowCons _ _ _ _ => []
   | .rowNil => []
+  | .errb e _ _ _ kid => e :: structEffs kid
+  | .res e _ _ _ _ _ => [e]
+  | .hooked _ inner => structEffs inner
+  | .errTok _ => []
 
 /-- the rows of a keyed region as DOM nodes: `<li>` (one mutation: its text child), its text, the marker -/
 def forNodes (ks : Keyed.KState) (texts : List (Nat × Nat)) : List N :=
@@ -43,6 +47,11 @@ def nodesOf : RState → List (N × List Nat)
   | .rows _ _ _ _ _ _ _ => []
   | .rowCons _ _ _ _ => []
   | .rowNil => []
+  -- error boundaries are outside the class of `C04_untouched_nodes`
+  | .errb _ _ _ _ _ => []
+  | .res _ _ _ _ _ _ => []
+  | .hooked _ _ => []
+  | .errTok _ => []
 
 /-- the mount root and everything below it -/
 def St.nodes (st : St) : List (N × List Nat) :=
@@ -129,6 +138,29 @@ theorem rerunIn_struct (e : Nat) (w : Int) : ∀ (t : RState) (st : St), e ∉ s
     exact ⟨trivial, trivial⟩
   | rowCons k ix r rest _ _ => intro st _; simp only [rerunIn, structEffs]; exact ⟨trivial, trivial⟩
   | rowNil => intro st _; exact ⟨rfl, rfl⟩
+  | errb e' m s fb kid ih =>
+    intro st h
+    simp only [structEffs, List.mem_cons, not_or] at h
+    have hne : ¬ e' = e := fun hh => h.1 hh.symm
+    have := ih { st with hook := some s } h.2
+    simp only [rerunIn, hne, if_false, structEffs, underHook]
+    refine ⟨?_, by rw [this.2]⟩
+    split
+    · rfl
+    · exact this.1
+  | res e' c x n last hook =>
+    intro st h
+    simp only [structEffs, List.mem_singleton] at h
+    have hne : ¬ e' = e := fun hh => h hh.symm
+    simp only [rerunIn, hne, if_false, structEffs]
+    exact ⟨trivial, trivial⟩
+  | hooked hk inner ih =>
+    intro st h
+    simp only [structEffs] at h
+    have := ih { st with hook := hk } h
+    simp only [rerunIn, structEffs, underHook]
+    exact this
+  | errTok s => intro st _; exact ⟨rfl, rfl⟩
 
 /-- a re-run of `e` keeps every node that `e` does not govern: same identity, same mutation counter -/
 theorem rerunIn_nodes (e : Nat) (w : Int) : ∀ (t : RState) (st : St) (n : N) (g : List Nat),
@@ -204,6 +236,10 @@ theorem rerunIn_nodes (e : Nat) (w : Int) : ∀ (t : RState) (st : St) (n : N) (
   | rows e' en sel lists row ks items _ => intro st n' g h _; simp [nodesOf] at h
   | rowCons k ix r rest _ _ => intro st n' g h _; simp [nodesOf] at h
   | rowNil => intro st n' g h _; simp [nodesOf] at h
+  | errb e' m s fb kid _ => intro st n' g h _; simp [nodesOf] at h
+  | res e' c x n last hook => intro st n' g h _; simp [nodesOf] at h
+  | hooked hk inner _ => intro st n' g h _; simp [nodesOf] at h
+  | errTok s => intro st n' g h _; simp [nodesOf] at h
 
 
 theorem structEffs_sub : ∀ (t : RState), ∀ e ∈ structEffs t, e ∈ effsOf t := by
@@ -242,6 +278,16 @@ theorem structEffs_sub : ∀ (t : RState), ∀ e ∈ structEffs t, e ∈ effsOf 
     simp [effsOf, h]
   | rowCons k ix r rest _ _ => intro e h; simp [structEffs] at h
   | rowNil => intro e h; simp [structEffs] at h
+  | errb e' m s fb kid ih =>
+    intro e h
+    simp only [structEffs, List.mem_cons] at h
+    simp only [effsOf, List.mem_cons]
+    rcases h with h | h
+    · exact Or.inl h
+    · exact Or.inr (ih e h)
+  | res e' c x n last hook => intro e h; simpa [structEffs, effsOf] using h
+  | hooked hk inner ih => intro e h; simp only [structEffs] at h; simp only [effsOf]; exact ih e h
+  | errTok s => intro e h; simp [structEffs] at h
 
 /-- the effects governing a node are effects of the tree -/
 theorem nodesOf_sub : ∀ (t : RState) (n : N) (g : List Nat), (n, g) ∈ nodesOf t → ∀ e ∈ g, e ∈ effsOf t := by
@@ -312,5 +358,9 @@ theorem nodesOf_sub : ∀ (t : RState) (n : N) (g : List Nat), (n, g) ∈ nodesO
   | rows e' en sel lists row ks items _ => intro n' g h; simp [nodesOf] at h
   | rowCons k ix r rest _ _ => intro n' g h; simp [nodesOf] at h
   | rowNil => intro n' g h; simp [nodesOf] at h
+  | errb e' m s fb kid _ => intro n' g h; simp [nodesOf] at h
+  | res e' c x n last hook => intro n' g h; simp [nodesOf] at h
+  | hooked hk inner _ => intro n' g h; simp [nodesOf] at h
+  | errTok s => intro n' g h; simp [nodesOf] at h
 
 end Leptos.RView
